@@ -260,6 +260,8 @@ package postgres
 
 //@ func (*PostgresStoreWorker).readPromises
 //@ props C17 C02 C20
+// every returned record is the row it was scanned from, column by column (C01, C20: what a sweep or a search reports is what is stored)
+//@ site loop 1 backedge assert scanned(rows, record, "ReadPromises")
 //@ nopanic C13
 //@ ghostdb store
 //@ requires cmd != nil
@@ -268,6 +270,8 @@ package postgres
 
 //@ func (*PostgresStoreWorker).searchPromises
 //@ props C17 C02 C20 C14
+// every returned record is the row it was scanned from, column by column (C01, C20: what a sweep or a search reports is what is stored)
+//@ site loop 2 backedge assert scanned(rows, record, "SearchPromises")
 // result wiring (C14): every scanned row is returned, in scan order; the cursor value is the last row's sort id
 //@ loop 2 invariant rowsReturned == len(records)
 //@ site loop 2 backedge assert lastSortId == record.SortId && rowsReturned == len(records)
@@ -287,6 +291,8 @@ package postgres
 
 //@ func (*PostgresStoreWorker).readSchedules
 //@ props C17 C02 C20
+// every returned record is the row it was scanned from, column by column (C01, C20: what a sweep or a search reports is what is stored)
+//@ site loop 1 backedge assert scanned(rows, record, "ReadSchedules")
 //@ nopanic C13
 //@ ghostdb store
 //@ requires cmd != nil
@@ -295,6 +301,8 @@ package postgres
 
 //@ func (*PostgresStoreWorker).searchSchedules
 //@ props C17 C02 C20 C14
+// every returned record is the row it was scanned from, column by column (C01, C20: what a sweep or a search reports is what is stored)
+//@ site loop 1 backedge assert scanned(rows, record, "SearchSchedules")
 // result wiring (C14): every scanned row is returned, in scan order; the cursor value is the last row's sort id
 //@ loop 1 invariant rowsReturned == len(records)
 //@ site loop 1 backedge assert lastSortId == record.SortId && rowsReturned == len(records)
@@ -310,6 +318,8 @@ package postgres
 
 //@ func (*PostgresStoreWorker).readTasks
 //@ props C17 C02 C20
+// every returned record is the row it was scanned from, column by column (C01, C20: what a sweep or a search reports is what is stored)
+//@ site loop 2 backedge assert scanned(rows, record, "ReadTasks")
 //@ nopanic C13
 //@ ghostdb store
 //@ requires cmd != nil
@@ -319,6 +329,8 @@ package postgres
 
 //@ func (*PostgresStoreWorker).readEnqueueableTasks
 //@ props C17 C02 C20
+// every returned record is the row it was scanned from, column by column (C01, C20: what a sweep or a search reports is what is stored)
+//@ site loop 1 backedge assert scanned(rows, record, "ReadEnqueueableTasks")
 //@ nopanic C13
 //@ ghostdb store
 //@ requires cmd != nil
